@@ -479,6 +479,7 @@ func C05SubPhase(r *vk.Run) {
 	}
 	r.Fanout("c05sub", vk.NumWorkers(), 30*time.Minute)
 	r.Floor("pairs_checked", 500)
+	C05PatternPhase(r)
 }
 
 func workerC05Sub(r *vk.Run, w, n int, args []string) {
@@ -501,6 +502,11 @@ func workerC05Sub(r *vk.Run, w, n int, args []string) {
 		}
 		q, qsig := g.QueryFor(lines)
 		argv := append([]string{"--filter", q}, argsNoX...)
+		if rng.Intn(3) == 0 {
+			// field-restricted matching: per-item token caches must not leak from one line to the next
+			argv = append(argv, [][]string{{"--nth", "1"}, {"--nth", "2"}, {"--nth", "2.."}, {"--nth", "-1"}, {"--nth", "1", "--delimiter", "/"}, {"--nth", "2..", "--delimiter", "-"}}[rng.Intn(6)]...)
+			qsig += " nth"
+		}
 		vk.SetCase(map[string]any{"args": argv, "lines": lines})
 		full, _, err := fzfrun.Lib(argv, lines)
 		if err != nil {
